@@ -372,7 +372,9 @@ check:
 	for _, pv := range t.Pattern {
 		if !seenPatterns[pv.Name] {
 			seenPatterns[pv.Name] = true
-			y.Pattern = append(y.Pattern, pv.Name)
+			// y.Pattern shares its backing array with the typedef's list:
+			// force a copy so that another use of the typedef is untouched.
+			y.Pattern = append(y.Pattern[:len(y.Pattern):len(y.Pattern)], pv.Name)
 		}
 	}
 
@@ -397,7 +399,7 @@ check:
 		checkPattern(ext, ext.Argument, syntax.POSIX)
 		if !seenPOSIXPatterns[ext.Argument] {
 			seenPOSIXPatterns[ext.Argument] = true
-			y.POSIXPattern = append(y.POSIXPattern, ext.Argument)
+			y.POSIXPattern = append(y.POSIXPattern[:len(y.POSIXPattern):len(y.POSIXPattern)], ext.Argument)
 		}
 	}
 
@@ -412,7 +414,7 @@ looking:
 					continue looking
 				}
 			}
-			y.Type = append(y.Type, ut.YangType)
+			y.Type = append(y.Type[:len(y.Type):len(y.Type)], ut.YangType)
 		}
 	}
 
